@@ -40,6 +40,26 @@ def r17_1(ctx):
     ctx.floor('R17.1', 'functions calling a Krylov solver', n, 1)
 
 
+def _covers_positive(test, name):
+    """True / False / None: is `test` true when the integer status `name` is positive?  Decided for tests built from the
+    status, integer literals, comparisons, not/and/or by evaluating the expression for name = 1 and name = 3."""
+    allowed = (ast.Name, ast.Constant, ast.Compare, ast.BoolOp, ast.UnaryOp, ast.And, ast.Or, ast.Not, ast.USub, ast.Load,
+               ast.Lt, ast.LtE, ast.Gt, ast.GtE, ast.Eq, ast.NotEq, ast.Is, ast.IsNot)
+    for n in ast.walk(test):
+        if not isinstance(n, allowed):
+            return None
+        if isinstance(n, ast.Name) and n.id != name:
+            return None
+        if isinstance(n, ast.Constant) and not isinstance(n.value, (int, type(None))):
+            return None
+    try:
+        code = compile(ast.Expression(test), '<status-test>', 'eval')
+        vals = [bool(eval(code, {'__builtins__': {}}, {name: v})) for v in (1, 3)]
+    except Exception:
+        return None
+    return all(vals)
+
+
 def status_verdict(fn):
     """(True/False/None, statement, node, why) for the first Krylov call in fn."""
     for s in own_nodes(fn):
@@ -55,6 +75,13 @@ def status_verdict(fn):
             # an if on the status whose body raises / returns status / recomputes the solution
             for iff in [n for n in own_nodes(fn) if isinstance(n, ast.If) and info in {x.id for x in ast.walk(n.test) if isinstance(x, ast.Name)}]:
                 body = iff.body
+                # scipy: info > 0 = iteration limit reached without convergence, info < 0 = illegal input / breakdown.
+                # The test must be true for info > 0 (decided by evaluating it on the sample statuses 3 and 1).
+                cov = _covers_positive(iff.test, info)
+                if cov is False:
+                    return False, 'if %s: ...' % src(iff.test), iff, \
+                        'the corrective branch is not taken for %s > 0, the status scipy returns when the iteration limit is reached ' \
+                        'without meeting the tolerance: the unconverged iterate is returned silently' % info
                 if any(isinstance(b, ast.Raise) for b in ast.walk(ast.Module(body, []))):
                     return True, 'if %s: raise' % src(iff.test), iff, 'non-convergence raises'
                 if any(isinstance(b, ast.Assign) and src(b.targets[0]) == xname for b in body):
